@@ -567,7 +567,10 @@ def handler (env : Env) (t : Tables) (rec : Rec) (ctx : Ctx) (schema doc : Val) 
   | "noneof" => errsOnly (hLogical env rec ctx schema doc f "noneof" Code.NONEOF c v upd)
   | "oneof" => errsOnly (hLogical env rec ctx schema doc f "oneof" Code.ONEOF c v upd)
   | "check_with" => errsOnly (hCheckWith env c v)
-  | _ => raisePy "RuntimeError" "__get_rule_handler"
+  | _ =>
+    match env.customRule rule c v with
+    | some msgs => .ok { errs := msgs.map customSpec }
+    | none => raisePy "RuntimeError" "__get_rule_handler"
 
 /-! ### the rule queue -/
 
